@@ -293,6 +293,25 @@ theorem one_component_mle (a : ℝ) (ps : List (ℝ × ℝ)) (hne : ps ≠ [])
   rw [logLik_one, logLik_one, mleTau_real]
   exact profile_max _ _ tau hn hS ht
 
+/-- `one_component_mle` under the lifetime search bounds: over any search interval `[lo, hi]` (`0 < lo ≤ hi`) the
+    log-likelihood of the one-component model without upper limit is maximal at the closed form CLIPPED to the
+    interval, `max lo (min hi τ̂)` — the profile is increasing up to `τ̂` and decreasing from there on.  (This is the
+    value the fitted lifetime is held to when `τ̂` falls outside `_exponential_mle_bounds`, e.g. when the sample mean
+    is below `1.1·tmin`.) -/
+theorem one_component_mle_within_bounds (a : ℝ) (ps : List (ℝ × ℝ)) (hne : ps ≠ [])
+    (hS : 0 < (ps.map fun p => p.1 - p.2).sum) (lo hi : ℝ) (hlo : 0 < lo) (hlh : lo ≤ hi)
+    (tau : ℝ) (h1 : lo ≤ tau) (h2 : tau ≤ hi) :
+    logLik [⟨a, tau⟩] (ps.map openObs)
+      ≤ logLik [⟨a, max lo (min hi (mleTau (ps.map openObs) (ps.length : ℝ)))⟩] (ps.map openObs) := by
+  have hn : 0 < (ps.length : ℝ) := by
+    have : 0 < ps.length := List.length_pos_iff.2 hne
+    exact_mod_cast this
+  rw [logLik_one, logLik_one, mleTau_real]
+  exact profile_max_clamped _ _ lo hi tau hn hS hlo hlh h1 h2
+
+-- non-vacuity: the closed form 1.25 of the data below lies above the interval [0.05, 1]: the maximum is at `hi`
+example : (0 : ℝ) < 0.05 ∧ (0.05 : ℝ) ≤ 1 ∧ (0.05 : ℝ) ≤ 0.7 ∧ (0.7 : ℝ) ≤ 1 := by norm_num
+
 /-- with a common minimum observable time the estimate is `sample mean − tmin` (the closed form of the
     property text) -/
 theorem mle_scalar_limit (ps : List (ℝ × ℝ)) (hne : ps ≠ []) (tmin : ℝ) (h : ∀ p ∈ ps, p.2 = tmin) :
